@@ -103,6 +103,12 @@ fn handle_known(
                 Err(CaseError::Violation(failure))
             }
         }
+        Err(CaseError::Skip(reason)) => {
+            if env.counting {
+                env.stats.class(&format!("skipped:{reason}"));
+            }
+            Ok(())
+        }
         other => other,
     }
 }
@@ -159,6 +165,7 @@ pub fn run_worker(
                     engine_error: Some(msg),
                 };
             }
+            Err(CaseError::Skip(_)) => {}
         }
     }
 
@@ -210,6 +217,7 @@ pub fn run_worker(
                         Ok(())
                     }
                 }
+                Err(CaseError::Skip(_)) => Ok(()),
             }
         });
         match result {
@@ -254,6 +262,10 @@ pub fn worker_main(
     report_path: &Path,
 ) -> i32 {
     let findings = Findings::load(&verif_root().join("KNOWN_FINDINGS.txt"));
+    // a worker must not outlive its parent
+    unsafe {
+        libc::prctl(libc::PR_SET_PDEATHSIG, libc::SIGKILL);
+    }
     if property.hang_is_violation() {
         // per-case watchdog: a case that runs for more than 60 s kills this worker; the parent then
         // re-runs the noted case alone to confirm
@@ -411,6 +423,9 @@ pub fn parent_main(property: &dyn Property, tier: Tier, seed: u64) -> i32 {
                     "regression {}: {msg}",
                     path.display()
                 )),
+                Err(CaseError::Skip(reason)) => {
+                    println!("regression {}: skipped ({reason})", path.display());
+                }
             }
         }
     }
